@@ -159,6 +159,13 @@ Definition pagree (c : pcase) : bool :=
         end) (p_nodes c)
   end.
 
+(* the strategy table as doGetDeployStrategy must assemble it: reported capacities with the
+   TRUE number of deployed + in-flight instances of exactly this app / entrypoint per node *)
+Definition path_infos (c : pcase) : list info := glue_infos (p_reported c) (p_status c).
+Definition path_guard (c : pcase) : bool :=
+  (0 <? p_need c) && (0 <=? p_limit c) && negb (strategy_eqb (p_strat c) Other) &&
+  forallb (fun x => f_finite (usage x) && f_finite (rate x) && fle fzero (rate x)) (path_infos c).
+
 (* boolean reflection of the path properties on what the implementation did *)
 Definition plan_within (reported : list cap_entry) (p : plan) : bool :=
   forallb (fun kv => existsb (fun r => String.eqb (ce_name r) (fst kv) && (snd kv <=? ce_cap r) && (0 <=? snd kv)) reported) p.
@@ -187,6 +194,11 @@ Definition pok (c : pcase) : bool :=
               end) p
    | _ => true
    end) &&
+  (* C01 (a)-(d) for the plan against the true deploy status (per-node limit of AUTO included) *)
+  (match p_obs_cap c with
+   | Model.Ok p => negb (path_guard c) || C01_plan_ok (p_strat c) (p_need c) (p_limit c) (path_infos c) p
+   | _ => true
+   end) &&
   (* (d) commit: memory usage after the create = usage before + created * memory request *)
   match wreq_validate (p_raw c), p_obs_create c with
   | inr req, Model.Ok q =>
@@ -196,4 +208,11 @@ Definition pok (c : pcase) : bool :=
         | None => false
         end) (p_nodes c)
   | _, _ => true
+  end.
+
+(* C03 on the plan of the real path, against the true deploy status *)
+Definition pok3 (c : pcase) : bool :=
+  match p_obs_cap c with
+  | Model.Ok p => negb (path_guard c) || all_pairs (C03_pair (p_strat c) (p_need c) (p_limit c) p) (path_infos c)
+  | _ => true
   end.
